@@ -200,6 +200,8 @@ class SymBytes:
         return True
 
     def _sub(self, sub):
+        if isinstance(sub, list):
+            return sub
         if isinstance(sub, (int, SymInt)):
             return [sub]
         e = elems_of(sub)
@@ -477,7 +479,8 @@ class SymBytes:
     def decode(self, encoding="utf-8", errors="strict"):
         if self.is_concrete():
             return self.concrete().decode(encoding, errors)
-        raise Unsupported("decode() of symbolic bytes (symbolic str is not modelled)")
+        from .models import SymStr
+        return SymStr()  # opaque: may only be formatted into messages
 
     def tobytes(self):
         return SymBytes(self.elems)
